@@ -26,3 +26,10 @@ Definition G (rws : list (list (nat * R))) e0 e1 n a b : R :=
 (* w_tilde_curvature_value_from between the d0-th and d1-th unmasked pixel *)
 Definition Wv (noise : px -> R) (K : @kernel ROps) (nfs : list px) (d0 d1 : nat) : R :=
   @wt_value ROps noise K (nth d0 nfs (0%Z, 0%Z)) (nth d1 nfs (0%Z, 0%Z)).
+(* the convolution operator carried by the convolver's image frames (C03): Cop c i s = what unit flux in pixel s sends into pixel i *)
+Definition Cop (c : @convolver ROps) (i s : nat) : R := sumR (hits i (nth s (image_frames c) [])).
+Definition frames_ok (c : @convolver ROps) (n : nat) : Prop :=
+  length (image_frames c) = n /\ forall s tk, In tk (nth s (image_frames c) []) -> (fst tk < n)%nat.
+(* the encoding e stands for the matrix M *)
+Definition represents (e : @enc ROps) (M : @mat ROps) (n P : nat) : Prop :=
+  forall d p, (d < n)%nat -> (p < P)%nat -> mget M d p = E e d p.
